@@ -188,11 +188,11 @@ def ir_blocks(ir):
         line = line.strip()
         if not line or cur is None:
             continue
-        am = re.match(r"call void @act\(i32 (\d+)\)", line)
+        am = re.match(r"call (?:fastcc |ccc )?void @act\(i32 (\d+)\)", line)
         if am:
             blocks[cur].append(("act", int(am.group(1))))
             continue
-        cm = re.match(r"%\S+ = call i32 @nxt\(.*i32 (\d+)\)", line)
+        cm = re.match(r"%\S+ = call (?:fastcc |ccc )?i32 @nxt\(.*i32 (\d+)\)", line)
         if cm:
             blocks[cur].append(("cond", int(cm.group(1))))
             continue
